@@ -589,7 +589,17 @@ class History(object):
             return None
         if len(a['lineage']['merges']) >= 2:
             return None
+        uq_before = libops.uq_canon(a['lib'])
         out, _ = libops.record(a['lib'].Update, b['lib'], op['overwrite'])
+        if 'exc' in out and out['exc'] == 'ReadOnlyDataError' and \
+                libops.uq_canon(a['lib']) != uq_before:
+            # group data may be partly merged when a library merge is
+            # rejected (not stated otherwise); the uncertainty block is
+            # taken over as a whole and only by a merge that went through
+            self.viol('failed-operation-effects', 'uq-adopted',
+                      'rejected-merge-changed-the-uncertainty-block',
+                      {'target': a['lineage']['base'][0],
+                       'source': b['lineage']['base'][0]}, idx)
         a['lineage'] = {'base': a['lineage']['base'],
                         'merges': a['lineage']['merges']
                         + [[_lin_copy(b['lineage']), op['overwrite']]]}
@@ -675,6 +685,34 @@ def _variant(rng, temps):
     return v
 
 
+_INC = {}
+
+
+def include_basenames(lib):
+    """Basenames of the files a library includes (recursively), read from
+    the YAML on disk without pgradd."""
+    if lib in _INC:
+        return _INC[lib]
+    import yaml
+    root = libops.lib_path(lib, 'path')
+    seen = []
+
+    def visit(path):
+        try:
+            with open(path) as f:
+                d = yaml.safe_load(f) or {}
+        except Exception:
+            return
+        for inc in d.get('include') or []:
+            p = os.path.normpath(os.path.join(os.path.dirname(path), inc))
+            if p not in seen:
+                seen.append(p)
+                visit(p)
+    visit(root)
+    _INC[lib] = sorted(set(os.path.basename(p) for p in seen))
+    return _INC[lib]
+
+
 def gen_spec(run_seed, tier='quick'):
     rng = core.rng_for('C15-run', run_seed)
     nclients = rng.choice([1, 1, 2, 2, 3])
@@ -739,7 +777,9 @@ def gen_spec(run_seed, tier='quick'):
         failed = False
         if fault_kinds and rng.random() < 0.5:
             kind = rng.choice(fault_kinds)
-            f = rng.choice(['library.yaml', 'scheme.yaml'])
+            # any file of the library: root, scheme, or one of its includes
+            f = rng.choice(['library.yaml', 'scheme.yaml']
+                           + include_basenames(lib) * 2)
             op['faults'] = [{'kind': kind, 'file': f, 'skip': 0}]
             failed = True
         ops.append(op)
